@@ -164,13 +164,22 @@ func (s *session) runV1(name string, op J) J {
 		}
 		return r
 	case "put":
-		_, err := cl.PutItem(&dynamodb.PutItemInput{TableName: table, Item: itemToV1(obj(op, "item")), ConditionExpression: pstr(op, "cond"), ExpressionAttributeNames: v1Names(op), ExpressionAttributeValues: itemToV1(obj(op, "values"))})
-		return res(err)
+		pin := &dynamodb.PutItemInput{TableName: table, Item: itemToV1(obj(op, "item")), ConditionExpression: pstr(op, "cond"), ExpressionAttributeNames: v1Names(op), ExpressionAttributeValues: itemToV1(obj(op, "values"))}
+		if b, ok := op["return_old"].(bool); ok && b {
+			pin.ReturnValues = aws.String("ALL_OLD")
+		}
+		o, err := cl.PutItem(pin)
+		r := res(err)
+		if err == nil && o != nil && o.Attributes != nil {
+			r["item"] = itemFromV1(o.Attributes)
+		}
+		return r
 	case "get":
 		o, err := cl.GetItem(&dynamodb.GetItemInput{TableName: table, Key: itemToV1(obj(op, "key")), ExpressionAttributeNames: v1Names(op), ProjectionExpression: pstr(op, "projection")})
 		r := res(err)
 		if o != nil {
 			r["item"] = itemFromV1(o.Item)
+			r["item_nil"] = o.Item == nil
 		}
 		return r
 	case "update":
